@@ -400,6 +400,13 @@ def line_count(path, cache={}):
     return cache[path]
 
 
+def ends_with_splice(path):
+    try:
+        return open(path, 'rb').read().rstrip(b' \t').endswith(b'\\\n')
+    except OSError:
+        return False
+
+
 def has_line_directive(path, cache={}):
     if path not in cache:
         try:
@@ -468,8 +475,9 @@ def classify(rc, o, e, main_path, extra=()):
             continue
         if 1 <= n <= lc:
             located = True
-        elif n == lc + 1 and ln[m.end():].strip() == '':
-            # position of the end-of-file token: the (empty) line after the last newline
+        elif n == lc + 1 and (ln[m.end():].strip() == '' or ends_with_splice(f if os.path.isabs(f) else os.path.join(os.path.dirname(main_path), f))):
+            # position of the end-of-file token: the (empty) line after the last newline; when the last line ends in
+            # backslash-newline the text shown is the spliced logical line, the number still the physical one
             located = True
         else:
             return 'bad-line', 'line-out-of-range', '%s:%d but file has %d lines' % (os.path.basename(f), n, lc)
